@@ -220,3 +220,64 @@ Proof.
   cbv zeta. split; [apply wf_histb_sound; vm_compute; reflexivity|].
   repeat split; vm_compute; reflexivity.
 Qed.
+
+(* ---- round 6: the value the calls are made on, and callbacks that fail
+   (Model/CoreVia.v, Proofs/CoreViaProofs.v) *)
+From Tab Require Import Model.CoreVia Proofs.CoreViaProofs.
+
+(* A table value is the core table or a stack of rendering wrappers (csv,
+   html, json, markdown, texttable - what the sub-packages' New / Wrap and
+   auto.New / auto.Wrap return) around it.  For EVERY stack ks and EVERY
+   history in which each building call is made on any level of the stack, the
+   table every level shows is the core table after the same calls ... *)
+Theorem c02_via_refines : forall (A : Type) (ks : list wkind) (h : list (nat * op A)),
+  vcore (vrun h (vnew ks)) = run (map snd h).
+Proof. exact (fun A => @via_refines A). Qed.
+Print Assumptions c02_via_refines.
+
+(* ... so its column count is the largest header or row of the history
+   (a row wider than the header included), through any wrapper ... *)
+Theorem c02_via_ncols : forall (A : Type) (ks : list wkind) (h : list (nat * op A)), wf_hist (map snd h) ->
+  ncols (vcore (vrun h (vnew ks))) =
+  list_max (header_sizes (map snd h) ++ map row_size (all_rows (vcore (vrun h (vnew ks))))).
+Proof. exact (fun A => @via_ncols A). Qed.
+Print Assumptions c02_via_ncols.
+
+(* ... and everything C02 observes (counts, order, locations, CellAt over the
+   bounding box, column handles) is what the history spec expects. *)
+Theorem c02_via_dump_expected : forall (ks : list wkind) (h : list (nat * op N)), wf_hist (map snd h) ->
+  enc_obs (observe (vcore (vrun h (vnew ks)))) = spec_dump_last (map snd h).
+Proof. exact via_dump_last_expected. Qed.
+Print Assumptions c02_via_dump_expected.
+
+(* Every building call may come with add-time callbacks that return errors
+   (rs: the results of the callbacks run during the call, true = an error).
+   The table is the table of the calls alone, and every error is recorded. *)
+Theorem c02_callback_errors : forall (A : Type) (h : list (op A * list bool)),
+  cb_run h = (run (map fst h), count_errs (concat (map snd h))).
+Proof. exact (fun A => @cb_refines A). Qed.
+Print Assumptions c02_callback_errors.
+
+Theorem c02_callback_errors_dump_expected : forall h : list (op N * list bool), wf_hist (map fst h) ->
+  enc_obs (observe (fst (cb_run h))) = spec_dump_last (map fst h).
+Proof. exact cb_dump_last_expected. Qed.
+Print Assumptions c02_callback_errors_dump_expected.
+
+(* json.Wrap(csv.Wrap(tabular.New())): headers of two cells on the outer
+   wrapper, a row of three cells on the inner one, an attached row whose
+   third cell is refused by the row's add-time callback *)
+Example c02_example_via_and_callback_errors :
+  let h : list (nat * op N) :=
+    [(0, AddHeaders [1%N; 2%N]); (1, AddRowItems [3%N; 4%N; 5%N]); (2, AppendNewRow 1)] in
+  let hc : list (op N * list bool) :=
+    [(AddHeaders [1%N], []); (AppendNewRow 1, []); (RowAdd (RName 1) 7%N, [false]); (RowAdd (RName 1) 0%N, [true; false])] in
+  wf_hist (map snd h) /\ wf_hist (map fst hc)
+  /\ nrows (vcore (vrun h (vnew [WCsv; WJson]))) = 2 /\ ncols (vcore (vrun h (vnew [WCsv; WJson]))) = 3
+  /\ cell_at (vcore (vrun h (vnew [WCsv; WJson]))) 1 3 = Ok (1, mkCell 5%N 3)
+  /\ ncols (fst (cb_run hc)) = 2 /\ snd (cb_run hc) = 1
+  /\ column_exists (fst (cb_run hc)) 2 = Ok true.
+Proof.
+  cbv zeta. split; [apply wf_histb_sound; vm_compute; reflexivity|].
+  split; [apply wf_histb_sound; vm_compute; reflexivity|].
+  repeat split; vm_compute; reflexivity.
+Qed.
